@@ -444,7 +444,7 @@ impl Prop for C02 {
     type Case = AccessCase;
     const ID: &'static str = "C02";
     fn rule() -> &'static str {
-        "exhaustive over shapes (0..=5)^2 x receivers {owned, view_mut windows (interior, edge-touching), nested view_mut, third-party wrapper, shared view, nested shared view, view of view_mut, views over a plain slice} x coordinates from {0..dim+1} + {usize::MAX, usize::MAX/2, usize::MAX/2+1, 2^32, 2^62, 2^63} + {ceil(2^64/s)*j+d for s in {stride, stride*rows, stride+1}} (the values whose stride product wraps back into range), plus random shapes up to 40. In range: the addresses of x[(c,r)], x[r][c], x.col(c)[r], get_unchecked, get_unchecked_row[c] and all their mutable forms are equal to the root-buffer address of the cell (owned: data()[r*num_cols+c]); writes through each mutable accessor are read back through the others and change exactly one root cell. Out of range: every checked accessor must panic and the root buffer is unchanged. Debug and overflow-unchecked release builds. Every case is non-trivial (identity or panic is checked); distinct = distinct (receiver, shape, coordinate)."
+        "exhaustive over shapes (0..=5)^2 x receivers {owned, view_mut windows (interior, edge-touching), nested view_mut, third-party wrapper, shared view, nested shared view, view of view_mut, views over a plain slice} x coordinates from {0..dim+1} + {usize::MAX, usize::MAX/2, usize::MAX/2+1, 2^32, 2^62, 2^63} + {ceil(2^64/s)*j+d for s in {stride, stride*rows, stride+1}} (the values whose stride product wraps back into range), plus random shapes up to 40. In range: the addresses of x[(c,r)], x[r][c], x.col(c)[r], get_unchecked, get_unchecked_row[c] and all their mutable forms are equal to the root-buffer address of the cell (owned: data()[r*num_cols+c]); writes through each mutable accessor are read back through the others and change exactly one root cell. Out of range: every checked accessor must panic and the root buffer is unchanged. Debug and overflow-unchecked release builds. Every case is non-trivial (identity or panic is checked); distinct = distinct (receiver, shape, coordinate). Also: giant grids of () with ~usize::MAX cells (20 shapes x 6 receivers x ~20 coordinates per axis, only panic / no panic observable), and view.clone(), a copy of the view and TooDeeView::from(view_mut) probed like the view itself."
     }
     fn bound(_t: Tier) -> String {
         "shapes (0..=5)^2, 10 receiver embeddings, ~25 coordinate values per axis incl. wrap-provoking ones".into()
@@ -908,7 +908,7 @@ impl Prop for C03 {
     type Case = WindowCase;
     const ID: &'static str = "C03";
     fn rule() -> &'static str {
-        "view / view_mut chains of depth 1..3 over {owned array, third-party wrapper, TooDeeView::new / TooDeeViewMut::new over a plain slice with slack}: depth 1 exhaustive over parent shapes (0..=4)^2 (thorough (0..=6)^2) x all (start,end) in {0..dim+1}^4 plus huge components; depth 2 exhaustive inner windows for fixed outer windows; random depth <= 3 with each level generated inside (or just outside) the previous one. Oracle: valid <=> start <= end <= size componentwise => no panic, size == end-start or (0,0) if an extent is zero, and the ADDRESS of every view cell v[(c,r)] equals the root-buffer address of the composed parent coordinate; invalid => panic. For view_mut every cell is overwritten through the view and the whole root buffer is compared with the model. Non-trivial = a window smaller than its parent, or a zero-extent window at the far edge, or depth >= 2, or a rejected window. Distinct = distinct case."
+        "view / view_mut chains of depth 1..3 over {owned array, third-party wrapper, TooDeeView::new / TooDeeViewMut::new over a plain slice with slack}: depth 1 exhaustive over parent shapes (0..=4)^2 (thorough (0..=6)^2) x all (start,end) in {0..dim+1}^4 plus huge components; depth 2 exhaustive inner windows for fixed outer windows; random depth <= 3 with each level generated inside (or just outside) the previous one. Oracle: valid <=> start <= end <= size componentwise => no panic, size == end-start or (0,0) if an extent is zero, and the ADDRESS of every view cell v[(c,r)] equals the root-buffer address of the composed parent coordinate; invalid => panic. For view_mut every cell is overwritten through the view and the whole root buffer is compared with the model. Non-trivial = a window smaller than its parent, or a zero-extent window at the far edge, or depth >= 2, or a rejected window. Distinct = distinct case. Also: giant grids of () (20 shapes, bounds from {0,1,2,d/3,d/2,d-2,d-1,d,d+1,MAX,MAX/2+1}^4 exhaustively at depth 1, fixed outer windows at depth 2): validity, size, corner cells."
     }
     fn bound(t: Tier) -> String {
         format!("depth 1: shapes (0..={n})^2, all (x0,y0,x1,y1) in {{0..dim+1}}^4, view and view_mut, 4 roots; depth 2: all inner windows of 6 fixed outer windows (three of them empty) of 4x4 / 5x4 / 3x2 parents", n = if t == Tier::Quick { 4 } else { 6 })
